@@ -643,7 +643,11 @@ class ModelsOps:
                 I.unsupported(node, "reversed of opaque")
             return ListV(list(reversed(seq)))
         if name in ("iter",):
-            return args[0]
+            v = args[0]
+            seq = self.iterate(v, node)
+            if seq is None:
+                return v
+            return IterV(seq)
         if name == "get_dflt_rounding_mode":
             o = OpaqueV("dflt_rounding_mode")
             o.kinds = {"ROUNDING"}
@@ -684,9 +688,29 @@ class ModelsOps:
         if name in ("all", "any"):
             return OpaqueV(name)
         if name == "next":
+            it = args[0]
+            if isinstance(it, IterV):
+                if it.pos >= len(it.seq):
+                    if len(args) > 1:
+                        return args[1]
+                    I.raise_("StopIteration", node)
+                it.pos += 1
+                return it.seq[it.pos - 1]
             return OpaqueV("next")
         if name == "builtin_sum":
-            return OpaqueV("sum")
+            it = args[0]
+            seq = None
+            if isinstance(it, IterV):
+                seq = it.seq[it.pos:]
+                it.pos = len(it.seq)
+            else:
+                seq = self.iterate(it, node)
+            if seq is None:
+                return OpaqueV("sum")
+            acc = args[1] if len(args) > 1 else kwargs.get("start", self.num_const(0))
+            for x in seq:
+                acc = self.binop(ast.Add, acc, x, node)
+            return acc
         if name == "object.__new__":
             return self.raw_new(args, node)
         if name == "MappingProxyType":
@@ -1060,6 +1084,12 @@ class ModelsOps:
         r = RateV(uc, tc, Num(m, "dec"), Num(ta, "dec"), name=st.fresh("rate"))
         r.fresh = True
         return r
+
+
+class IterV(V):
+    def __init__(self, seq):
+        self.seq = list(seq)
+        self.pos = 0
 
 
 def _same_class(l, r):
